@@ -27,13 +27,17 @@ HardBreakIn(t, p, hi) ==
   ELSE HardBreakIn(t, p + 1, hi)
 \* the header's name and value lie inside the header's own (logical, possibly folded) line
 SameLine(t, h) == ~HardBreakIn(t, h.Name[1], IF NonEmpty(h.Val) THEN FEnd(h.Val) ELSE FEnd(h.Name))
-\* between the name and the value there is only  WS* ':' LWS*
+\* the value comes after the colon that follows the name (and optional white space).  NOTE: C05 speaks about every
+\* input that parses successfully, also ill-formed ones the parsers tolerate (e.g. "From: ,<sip:a@b>" where the value
+\* parser skips the comma): it demands containment, order and trimming, NOT that the value starts at the first byte
+\* after the colon -- that is C07, for well-formed blocks.  (An earlier version demanded only LWS between the colon
+\* and the value and raised alarms on such tolerated inputs; corrected.)
 RECURSIVE OnlyLWS(_, _, _)
 OnlyLWS(t, p, hi) == p >= hi \/ (IsLWSb(B(t, p)) /\ OnlyLWS(t, p + 1, hi))
 RECURSIVE SkipWSp(_, _)
 SkipWSp(t, p) == IF p < Len(t) /\ IsWS(B(t, p)) THEN SkipWSp(t, p + 1) ELSE p
 ColonBetween(t, h) == NonEmpty(h.Val) =>
-  LET c == SkipWSp(t, FEnd(h.Name)) IN c < h.Val[1] /\ B(t, c) = COLON /\ OnlyLWS(t, c + 1, h.Val[1])
+  LET c == SkipWSp(t, FEnd(h.Name)) IN c < h.Val[1] /\ B(t, c) = COLON
 
 HdrOk(t, h, lo, hi) ==
   /\ NonEmpty(h.Name) /\ In(h.Name, lo, hi) /\ In(h.Val, lo, hi) /\ Before(h.Name, h.Val)
@@ -43,6 +47,18 @@ HEnd(h) == IF NonEmpty(h.Val) THEN FEnd(h.Val) ELSE FEnd(h.Name)
 NameAddrNested(v) ==              \* display name, URI, parameters inside the value; tag inside the parameters
   /\ Inside(v.Name, v.V) /\ Inside(v.URI, v.V) /\ Inside(v.Params, v.V) /\ Inside(v.Tag, v.Params)
   /\ Before(v.Name, v.URI) /\ Before(v.URI, v.Params)
+
+\* where the body starts: right after the first blank line (a line terminator directly followed by a line terminator)
+\* at or after position p; Len(t) if there is none
+RECURSIVE BlankLineEnd(_, _)
+BlankLineEnd(t, p) ==
+  IF p >= Len(t) THEN Len(t)
+  ELSE IF B(t, p) = CR \/ B(t, p) = LF THEN
+         LET q == IF B(t, p) = CR /\ p + 1 < Len(t) /\ B(t, p + 1) = LF THEN p + 2 ELSE p + 1 IN
+           IF q < Len(t) /\ (B(t, q) = CR \/ B(t, q) = LF)
+             THEN (IF B(t, q) = CR /\ q + 1 < Len(t) /\ B(t, q + 1) = LF THEN q + 2 ELSE q + 1)
+             ELSE BlankLineEnd(t, q)
+  ELSE BlankLineEnd(t, p + 1)
 
 (***************************************************************************)
 (* C05  FieldsNested(text, start, offs, ob): ob = observation of a          *)
@@ -77,6 +93,8 @@ FieldsNested(t, start, offs, ob) ==
   /\ In(pv.Contacts.LastHVal, start, bodyStart) /\ In(pv.PAIs.LastHVal, start, bodyStart)
   \* body: starts where the headers end (right after the blank line), ends at the returned offset
   /\ (NonEmpty(ob.Body) => (FEnd(ob.Body) = offs /\ ob.Body[1] > start /\ IsLWSb(B(t, ob.Body[1] - 1))))
+  /\ LET bs == BlankLineEnd(t, start) IN              \* (a lone CR at the very end of t is not yet a blank line)
+       (bs <= offs) => ob.Body = (IF offs = bs THEN <<0, 0>> ELSE <<bs, offs - bs>>)
   /\ \A j \in 1..Len(hs) : HEnd(hs[j]) <= bodyStart
   \* raw message = exactly the bytes from the start offset to the returned offset
   /\ (offs > start => ob.RawMsg = <<start, offs - start>>)
